@@ -765,16 +765,31 @@ impl Element {
     /// would let a destructive operation leave a dangling reference behind, or
     /// let an export ship a graph with a broken edge.
     pub fn references(&self) -> Vec<ElementId> {
+        self.references_by_member()
+            .into_iter()
+            .map(|(_, id)| id)
+            .collect()
+    }
+
+    /// [`Element::references`], each with the view member that carries it.
+    ///
+    /// The member is the top-level key of the rendered view the reference is
+    /// read from, which is what a field mask is written in — so a reader of a
+    /// redacted view can tell which of these references it was shown.
+    pub fn references_by_member(&self) -> Vec<(&'static str, ElementId)> {
         fn local(value: &anda_kip::Json) -> Option<ElementId> {
             match crate::term::Endpoint::from_json(value) {
                 Ok(crate::term::Endpoint::Local(id)) => Some(id),
                 _ => None,
             }
         }
-        fn structural(map: &anda_db_schema::Map<String, anda_kip::Json>, out: &mut Vec<ElementId>) {
+        fn structural(
+            map: &anda_db_schema::Map<String, anda_kip::Json>,
+            out: &mut Vec<(&'static str, ElementId)>,
+        ) {
             for refs in map.values() {
                 if let Some(items) = refs.as_array() {
-                    out.extend(items.iter().filter_map(local));
+                    out.extend(items.iter().filter_map(local).map(|id| ("structural", id)));
                 }
             }
         }
@@ -783,40 +798,62 @@ impl Element {
         match self {
             Element::Concept(row) => structural(&row.structural, &mut out),
             Element::Proposition(row) => {
-                out.extend(local(&row.subject));
-                out.extend(local(&row.object));
+                out.extend(local(&row.subject).map(|id| ("subject", id)));
+                out.extend(local(&row.object).map(|id| ("object", id)));
                 structural(&row.structural, &mut out);
             }
             Element::Assertion(row) => {
                 if let Ok(id) = row.proposition_id.parse() {
-                    out.push(id);
+                    out.push(("proposition_id", id));
                 }
-                out.extend(local(&row.asserted_by));
+                out.extend(local(&row.asserted_by).map(|id| ("asserted_by", id)));
                 out.extend(
                     row.evidence_ids
                         .iter()
-                        .filter_map(|id| id.parse::<ElementId>().ok()),
+                        .filter_map(|id| id.parse::<ElementId>().ok())
+                        .map(|id| ("evidence_refs", id)),
                 );
-                out.extend(row.context_refs.iter().filter_map(local));
+                out.extend(
+                    row.context_refs
+                        .iter()
+                        .filter_map(local)
+                        .map(|id| ("context_refs", id)),
+                );
                 structural(&row.structural, &mut out);
             }
             Element::Evidence(row) => {
                 if let Ok(id) = row.generated_by.parse() {
-                    out.push(id);
+                    out.push(("generated_by", id));
                 }
-                out.extend(row.source_refs.iter().filter_map(local));
+                out.extend(
+                    row.source_refs
+                        .iter()
+                        .filter_map(local)
+                        .map(|id| ("source_refs", id)),
+                );
                 out.extend(
                     row.corrects
                         .iter()
                         .chain(row.corrected_by.iter())
-                        .filter_map(|id| id.parse::<ElementId>().ok()),
+                        .filter_map(|id| id.parse::<ElementId>().ok())
+                        .map(|id| ("lifecycle", id)),
                 );
                 structural(&row.structural, &mut out);
             }
             Element::Activity(row) => {
-                out.extend(row.inputs.iter().filter_map(local));
-                out.extend(row.outputs.iter().filter_map(local));
-                out.extend(row.associated_actors.iter().filter_map(local));
+                out.extend(row.inputs.iter().filter_map(local).map(|id| ("inputs", id)));
+                out.extend(
+                    row.outputs
+                        .iter()
+                        .filter_map(local)
+                        .map(|id| ("outputs", id)),
+                );
+                out.extend(
+                    row.associated_actors
+                        .iter()
+                        .filter_map(local)
+                        .map(|id| ("associated_actors", id)),
+                );
                 structural(&row.structural, &mut out);
             }
         }
